@@ -153,11 +153,15 @@ Judge ==
 Report ==
     LET reached == TLCGet(6)
         bad == {i \in 1..Len(Rec) : reached[i] # Len(Log(Rec[i])) + 1}
+        \* the verdict on the property needs nothing from the model: a run the model cannot follow is judged all the same
+        badv == {i \in bad : MonitorErrors(Rec[i]) # {}}
     IN /\ \A i \in bad :
             PrintT(ToJson([kind |-> "DIVERGE", case |-> Rec[i].case.id,
                            errs |-> ToString(<<"message", reached[i], Log(Rec[i])[reached[i]].dir,
                                                Log(Rec[i])[reached[i]].bytes>>)]))
+       /\ \A i \in badv :
+            PrintT(ToJson([kind |-> "VIOL", case |-> Rec[i].case.id, errs |-> ToString(MonitorErrors(Rec[i]))]))
        /\ PrintT(ToJson([kind |-> "SUMMARY", cases |-> Len(Rec), judged |-> TLCGet(5) + Cardinality(bad),
-                         violations |-> TLCGet(3), divergences |-> TLCGet(4) + Cardinality(bad)]))
+                         violations |-> TLCGet(3) + Cardinality(badv), divergences |-> TLCGet(4) + Cardinality(bad)]))
 
 =============================================================================
